@@ -10,20 +10,21 @@ Import ListNotations.
 Local Open Scope Z_scope.
 
 (* Same union of metadata => same outcome: the same error, or the identical hierarchy,
-   ordering and rows.  For ALL stream lists.  [rank_names_proc]: no rank is claimed by two
-   different processes; the statement is false otherwise (C15_union_rank_ties_refuted, finding
-   rank-ties-order-dependent). *)
-Theorem C15_union : forall m1 m2, rank_names_proc m1 -> same_union m1 m2 -> build m1 = build m2.
+   ordering and rows.  For ALL stream lists, with no side condition: since the repair
+   patches/fix-c15-rank-ties.diff equal ranks are ordered by PID and equal minimum ranks by loom
+   name, so both orders are total (before it the statement needed "no rank is claimed by two
+   processes": C15_union_rank_ties_refuted_old). *)
+Theorem C15_union : forall m1 m2, same_union m1 m2 -> build m1 = build m2.
 Proof. exact build_union. Qed.
 Print Assumptions C15_union.
 
 (* in particular: any stream enumeration order ... *)
-Theorem C15_union_permutation : forall m1 m2, rank_names_proc m1 -> Permutation m1 m2 -> build m1 = build m2.
+Theorem C15_union_permutation : forall m1 m2, Permutation m1 m2 -> build m1 = build m2.
 Proof. exact build_perm. Qed.
 Print Assumptions C15_union_permutation.
 
 (* ... and identical row assignments *)
-Theorem C15_union_rows : forall m1 m2 sys1, rank_names_proc m1 -> same_union m1 m2 -> build m1 = Ok sys1 ->
+Theorem C15_union_rows : forall m1 m2 sys1, same_union m1 m2 -> build m1 = Ok sys1 ->
   exists sys2, build m2 = Ok sys2 /\ thread_rows sys2 = thread_rows sys1 /\ cpu_rows sys2 = cpu_rows sys1.
 Proof. exact build_union_rows. Qed.
 Print Assumptions C15_union_rows.
@@ -46,19 +47,23 @@ Print Assumptions C15_conflicts_refuted.
 
 (* ... and two distributions of one valid union give a crash and a system. *)
 Theorem C15_union_refuted :
-  exists m1 m2 sys, same_union m1 m2 /\ rank_names_proc m1 /\ Unfixed.build m1 = Crash /\ Unfixed.build m2 = Ok sys.
+  exists m1 m2 sys, same_union m1 m2 /\ Unfixed.build m1 = Crash /\ Unfixed.build m2 = Ok sys.
 Proof. exact unfixed_union_crashes. Qed.
 Print Assumptions C15_union_refuted.
 
-(* Without [rank_names_proc] C15_union is false (repaired or not): two processes with the same
-   rank are ordered by stream enumeration order (stable sort on equal keys), so the rows are not a
-   function of the metadata union alone.  The witness (w_tie1 / w_tie2 in Proofs/MetaProofs.v) is
-   corpus/C15/05-rank-tie.json; the real ovniemu reproduces it and the check reports it under the
-   key  rank-ties-order-dependent  (a finding listed in known_findings.txt). *)
-Theorem C15_union_rank_ties_refuted :
-  exists m1 m2 s1 s2, same_union m1 m2 /\ build m1 = Ok s1 /\ build m2 = Ok s2 /\ thread_rows s1 <> thread_rows s2.
-Proof. exact union_needs_distinct_ranks. Qed.
-Print Assumptions C15_union_rank_ties_refuted.
+(* The code before patches/fix-c15-rank-ties.diff (MetaDefs.NoTieBreak: equal ranks compare equal): two
+   processes with the same rank were ordered by stream enumeration order (stable sort on equal keys), so
+   the rows were not a function of the metadata union alone.  The witness (w_tie1 / w_tie2 in
+   Proofs/MetaProofs.v) is corpus/C15/05-rank-tie.json; the real ovniemu reproduced it (former finding
+   rank-ties-order-dependent, now a `fixed:` line of known_findings.txt); on the repaired model the two
+   enumerations give the same rows (C15_ex_rank_tie_fixed below). *)
+Theorem C15_union_rank_ties_refuted_old :
+  exists m1 m2 s1 s2, same_union m1 m2 /\ NoTieBreak.build m1 = Ok s1 /\ NoTieBreak.build m2 = Ok s2 /\ thread_rows s1 <> thread_rows s2.
+Proof. exact union_needs_distinct_ranks_old. Qed.
+Print Assumptions C15_union_rank_ties_refuted_old.
+
+Example C15_ex_rank_tie_fixed : build w_tie1 = build w_tie2 /\ exists s, build w_tie1 = Ok s.
+Proof. split; [vm_compute; reflexivity | eexists; vm_compute; reflexivity]. Qed.
 
 (* ---- non-vacuity ---- *)
 Definition nA : name := [110; 65].   (* "nA" *)
@@ -99,29 +104,29 @@ Theorem C15_sort_loom_from_source : forall st l,
    map (fun p => (p, app_of st (l, p),
                   isort (fun a b => Cmp_meta_gen.by_tid_core a b <=? 0) (threads_of st (l, p))))
        (isort (fun p q => if rank_enabled st l
-                          then Cmp_meta_gen.by_rank_core (rank_of st (l, p)) (rank_of st (l, q)) <=? 0
+                          then Cmp_meta_gen.by_rank_core (rank_of st (l, p)) (rank_of st (l, q)) p q <=? 0
                           else Cmp_meta_gen.by_pid_core p q <=? 0) (procs_of st l)),
    isort (fun c d => Cmp_meta_gen.by_phyid_core (snd c) (snd d) <=? 0) (cpus_of st l)).
 Proof. exact CmpMetaProofs.sort_loom_from_source. Qed.
 Print Assumptions C15_sort_loom_from_source.
 
-Theorem C15_loom_order_from_source : forall (by_rank : bool) (rmin : name -> Z) l,
-  isort (fun a b => if by_rank then rmin a <=? rmin b else str_le a b) l =
-  isort (fun a b => if by_rank then Cmp_meta_gen.cmp_loom_rank_core (rmin a) (rmin b) <=? 0
+Theorem C15_loom_order_from_source : forall st (by_rank : bool) l,
+  isort (loom_le true st by_rank) l =
+  isort (fun a b => if by_rank then Cmp_meta_gen.cmp_loom_rank_core (rank_min st a) (rank_min st b) a b <=? 0
                     else Cmp_meta_gen.cmp_loom_id_core a b <=? 0) l.
-Proof. exact CmpMetaProofs.meta_looms_sorted_by_rank_or_name. Qed.
+Proof. exact CmpMetaProofs.meta_looms_sorted_from_source. Qed.
 Print Assumptions C15_loom_order_from_source.
 
 Theorem C15_comparators_as_modelled :
   (forall a b, Cmp_meta_gen.by_pid_core a b = CmpPre.cmp3 a b) /\
-  (forall a b, Cmp_meta_gen.by_rank_core a b = CmpPre.cmp3 a b) /\
+  (forall a b p q, Cmp_meta_gen.by_rank_core a b p q = if a =? b then CmpPre.cmp3 p q else CmpPre.cmp3 a b) /\
   (forall a b, Cmp_meta_gen.by_phyid_core a b = CmpPre.cmp3 a b) /\
   (forall a b, Cmp_meta_gen.by_tid_core a b = CmpPre.cmp3 a b) /\
-  (forall a b, Cmp_meta_gen.cmp_loom_rank_core a b = CmpPre.cmp3 a b) /\
+  (forall a b x y, Cmp_meta_gen.cmp_loom_rank_core a b x y = if a =? b then CmpPre.strcmp x y else CmpPre.cmp3 a b) /\
   (forall a b, (Cmp_meta_gen.cmp_loom_id_core a b <=? 0) = str_le a b).
 Proof.
-  exact (conj CmpMetaProofs.by_pid_core_cmp3 (conj CmpMetaProofs.by_rank_core_cmp3 (conj CmpMetaProofs.by_phyid_core_cmp3
-        (conj CmpMetaProofs.by_tid_core_cmp3 (conj CmpMetaProofs.cmp_loom_rank_core_cmp3 CmpMetaProofs.cmp_loom_id_is_model_order))))).
+  exact (conj CmpMetaProofs.by_pid_core_cmp3 (conj CmpMetaProofs.by_rank_core_lex (conj CmpMetaProofs.by_phyid_core_cmp3
+        (conj CmpMetaProofs.by_tid_core_cmp3 (conj CmpMetaProofs.cmp_loom_rank_core_lex CmpMetaProofs.cmp_loom_id_is_model_order))))).
 Qed.
 Print Assumptions C15_comparators_as_modelled.
 
